@@ -30,6 +30,39 @@ fn marker_dir() -> String {
 
 extern "C" {
     fn close(fd: i32) -> i32;
+    fn posix_openpt(flags: i32) -> i32;
+    fn grantpt(fd: i32) -> i32;
+    fn unlockpt(fd: i32) -> i32;
+    fn ptsname_r(fd: i32, buf: *mut u8, len: usize) -> i32;
+}
+
+/// a pseudo terminal: (master, slave)
+fn open_pty() -> Result<(std::fs::File, std::fs::File), String> {
+    use std::os::unix::io::FromRawFd;
+    unsafe {
+        let m = posix_openpt(0o2 | 0o400);
+        if m < 0 {
+            return Err("posix_openpt failed".into());
+        }
+        if grantpt(m) != 0 || unlockpt(m) != 0 {
+            close(m);
+            return Err("grantpt/unlockpt failed".into());
+        }
+        let mut buf = [0u8; 128];
+        if ptsname_r(m, buf.as_mut_ptr(), buf.len()) != 0 {
+            close(m);
+            return Err("ptsname_r failed".into());
+        }
+        let end = buf.iter().position(|b| *b == 0).unwrap_or(buf.len());
+        let path = String::from_utf8_lossy(&buf[..end]).to_string();
+        let master = std::fs::File::from_raw_fd(m);
+        let slave = std::fs::OpenOptions::new()
+            .read(true)
+            .write(true)
+            .open(&path)
+            .map_err(|e| format!("open {}: {}", path, e))?;
+        Ok((master, slave))
+    }
 }
 
 pub fn argv0_forms() -> Vec<Tok> {
@@ -72,6 +105,7 @@ pub fn gen_case(seed: u64, run: u64, faults: bool, real_every: u64) -> Case {
     let mut sw = Swarm::draw(&mut r);
     sw.callbacks = sw.callbacks && r.chance(1, 2);
     sw.widths = false;
+    sw.bells = r.chance(1, 3);
     let opts = crate::c04::valid_opts(&mut r, &sw);
     let _ = Gen::new(&mut r, sw.clone());
     let n = r.range(1, 4);
@@ -168,9 +202,24 @@ pub fn gen_case(seed: u64, run: u64, faults: bool, real_every: u64) -> Case {
         } else {
             (StreamFault::None, StreamFault::None)
         };
+        // a terminal on exactly one of the two streams (with both on a terminal a colour build
+        // colours its output by design)
+        let (out_fault, err_fault) = if out_fault == StreamFault::None
+            && err_fault == StreamFault::None
+            && r.chance(1, 12)
+        {
+            if r.chance(1, 2) {
+                (StreamFault::Tty, StreamFault::None)
+            } else {
+                (StreamFault::None, StreamFault::Tty)
+            }
+        } else {
+            (out_fault, err_fault)
+        };
         let representable = |f: &StreamFault| !matches!(f, StreamFault::ErrAt { at, .. } if *at > 0);
+        let has_tty = out_fault == StreamFault::Tty || err_fault == StreamFault::Tty;
         let real = real_every > 0
-            && (run + k as u64) % real_every == 0
+            && ((run + k as u64) % real_every == 0 || (has_tty && (run + k as u64) % 4 == 0))
             && !full.is_empty()
             && representable(&out_fault)
             && representable(&err_fault);
@@ -474,7 +523,24 @@ fn judge(
         }
         return None;
     }
-    // a stream fault fired: text may be cut short, never misdirected or invented
+    // a stream fault fired: text may be cut short, never misdirected or invented.
+    // (When the failed write made the process panic, the unwind destroys the parser, and a
+    // destructor of a value it owns may be heard on stdout after whatever got through.)
+    const BELL: &[u8] = b"bell: a value owned by the parser was dropped\n";
+    let mut heard: &[u8] = stdout;
+    if status == 101 {
+        // (the last ring may itself be cut short by the failing descriptor)
+        for k in (1..BELL.len()).rev() {
+            if heard.ends_with(&BELL[..k]) {
+                heard = &heard[..heard.len() - k];
+                break;
+            }
+        }
+        while heard.ends_with(BELL) {
+            heard = &heard[..heard.len() - BELL.len()];
+        }
+    }
+    let stdout = heard;
     if !is_prefix(stdout, &e.stdout) {
         return Some((
             format!("rule=P2 stdout-not-prefix class={}", e.class),
@@ -536,8 +602,22 @@ pub fn spawn_real(
     let _ = std::fs::create_dir_all(marker_dir());
     let marker = format!("{}/{}-{}", marker_dir(), std::process::id(), tag);
     let _ = std::fs::remove_file(&marker);
-    let (so, close_out) = stdio_for(out_fault)?;
-    let (se, close_err) = stdio_for(err_fault)?;
+    // a terminal on one stream: the child gets the slave side, a thread drains the master
+    let mut pty_master: Option<(std::fs::File, bool)> = None;
+    let (so, close_out) = if *out_fault == StreamFault::Tty {
+        let (m, sl) = open_pty()?;
+        pty_master = Some((m, true));
+        (Stdio::from(sl), false)
+    } else {
+        stdio_for(out_fault)?
+    };
+    let (se, close_err) = if *err_fault == StreamFault::Tty {
+        let (m, sl) = open_pty()?;
+        pty_master = Some((m, false));
+        (Stdio::from(sl), false)
+    } else {
+        stdio_for(err_fault)?
+    };
     let mut cmd = Command::new(exe);
     cmd.arg0(OsString::from_vec(argv[0].clone()));
     for a in &argv[1..] {
@@ -546,6 +626,10 @@ pub fn spawn_real(
     cmd.env_clear();
     for (k, v) in env {
         cmd.env(OsString::from_vec(k.clone()), OsString::from_vec(v.clone()));
+    }
+    if pty_master.is_some() {
+        // a terminal that could show colours, so that a colour build has the choice
+        cmd.env("TERM", "xterm-256color");
     }
     cmd.stdin(Stdio::piped()).stdout(so).stderr(se);
     if close_out || close_err {
@@ -571,7 +655,45 @@ pub fn spawn_real(
         let mut stdin = child.stdin.take().ok_or("no stdin")?;
         stdin.write_all(def.as_bytes()).map_err(|e| e.to_string())?;
     }
-    let out = child.wait_with_output().map_err(|e| e.to_string())?;
+    // the Command still holds the slave descriptor; release it so the master sees the end
+    drop(cmd);
+    let pty_reader = pty_master.map(|(mut m, is_stdout)| {
+        let h = std::thread::spawn(move || {
+            use std::io::Read;
+            let mut all = Vec::new();
+            let mut buf = [0u8; 4096];
+            loop {
+                match m.read(&mut buf) {
+                    Ok(0) => break,
+                    Ok(n) => all.extend_from_slice(&buf[..n]),
+                    // EIO: the last slave descriptor is closed
+                    Err(_) => break,
+                }
+            }
+            all
+        });
+        (h, is_stdout)
+    });
+    let mut out = child.wait_with_output().map_err(|e| e.to_string())?;
+    if let Some((h, is_stdout)) = pty_reader {
+        let raw = h.join().map_err(|_| "pty reader panicked".to_string())?;
+        // the terminal's output processing turns \n into \r\n
+        let mut text = Vec::with_capacity(raw.len());
+        let mut i = 0;
+        while i < raw.len() {
+            if raw[i] == b'\r' && raw.get(i + 1) == Some(&b'\n') {
+                i += 1;
+                continue;
+            }
+            text.push(raw[i]);
+            i += 1;
+        }
+        if is_stdout {
+            out.stdout = text;
+        } else {
+            out.stderr = text;
+        }
+    }
     let status = match out.status.code() {
         Some(c) => c,
         None => return Err(format!("child killed by a signal: {}", out.status)),
@@ -656,7 +778,12 @@ pub fn run_case(case: &Case, stats: &mut Stats) -> RunReport {
             _ => continue,
         };
         stats.bump("op.launch");
-        let faulted = *out_fault != StreamFault::None || *err_fault != StreamFault::None;
+        let is_fault = |f: &StreamFault| !matches!(f, StreamFault::None | StreamFault::Tty);
+        let faulted = is_fault(out_fault) || is_fault(err_fault);
+        let has_tty = *out_fault == StreamFault::Tty || *err_fault == StreamFault::Tty;
+        if has_tty {
+            stats.bump("probe.launch_with_a_terminal_on_one_stream");
+        }
         let budget = crate::c04::budget_for(op);
         // ---- the promise
         let name = name_of(argv);
@@ -665,7 +792,21 @@ pub fn run_case(case: &Case, stats: &mut Stats) -> RunReport {
         let pred = exec::run_inner(&twin, rest, &name, None, None, budget);
         drop(twin);
         let e = match predict(&pred) {
-            Prediction::Expected(e) => e,
+            Prediction::Expected(mut e) => {
+                // `run(self)` consumes the parser: when it returns a value the parser - and
+                // what it owns - is gone before the program body starts; when it prints and
+                // exits nothing is destroyed
+                if e.class == "value" {
+                    for _ in 0..opts.bells() {
+                        e.stdout
+                            .extend_from_slice(b"bell: a value owned by the parser was dropped\n");
+                    }
+                }
+                if opts.bells() > 0 {
+                    stats.bump("probe.parser_owns_a_value_with_a_destructor");
+                }
+                e
+            }
             Prediction::Abnormal(what) => {
                 stats.bump("prediction.abnormal");
                 h.write_str(&what);
@@ -725,7 +866,7 @@ pub fn run_case(case: &Case, stats: &mut Stats) -> RunReport {
         let fired = obs.out_faults + obs.err_faults;
         for (f, n, fd) in [(out_fault, obs.out_faults, "stdout"), (err_fault, obs.err_faults, "stderr")] {
             let kind = match f {
-                StreamFault::None => continue,
+                StreamFault::None | StreamFault::Tty => continue,
                 StreamFault::Closed => "closed",
                 StreamFault::ErrAt { at: 0, errno } if errno.starts_with("No space") => "enospc_at_0",
                 StreamFault::ErrAt { at: 0, .. } => "epipe_at_0",
@@ -742,6 +883,7 @@ pub fn run_case(case: &Case, stats: &mut Stats) -> RunReport {
         {
             let fk = |f: &StreamFault| match f {
                 StreamFault::None => "ok",
+                StreamFault::Tty => "tty",
                 StreamFault::Closed => "closed",
                 StreamFault::ErrAt { at: 0, .. } => "err0",
                 StreamFault::ErrAt { .. } => "errk",
@@ -791,7 +933,7 @@ pub fn run_case(case: &Case, stats: &mut Stats) -> RunReport {
         }
         // ---- tier B: a real child process of the unhooked build
         if real && !argv.is_empty() {
-            let dull = argv.iter().map(|a| a.len()).sum::<usize>() % 2 == 1;
+            let dull = has_tty || argv.iter().map(|a| a.len()).sum::<usize>() % 2 == 1;
             let exe = realproc(dull);
             match spawn_real(&exe, opts, argv, out_fault, err_fault, &case.env, &format!("{}-{}", case.run, ix)) {
                 Err(why) => {
@@ -803,6 +945,9 @@ pub fn run_case(case: &Case, stats: &mut Stats) -> RunReport {
                 }
                 Ok(ro) => {
                     stats.bump("real.spawned");
+                    if has_tty {
+                        stats.bump("real.tty_child");
+                    }
                     stats.bump(if dull {
                         "real.variant_dull_color"
                     } else {
